@@ -273,11 +273,26 @@ func runF(op string, in M) (M, M) {
 		} else {
 			in["parent"] = M{"private": true, "key": vInts(privBytes), "chain": vInts(chain)}
 		}
-		parent := &slip10.ExtendedKey{ChainCode: chain, Key: parentKey}
+		parentKeyBytes := privBytes
+		if usePub {
+			parentKeyBytes = parPub
+		}
+		parent := &slip10.ExtendedKey{ChainCode: append([]byte{}, chain...), Key: parentKey}
+		// history on the same object: other children derived first must not disturb the parent
+		for _, pi := range vIntList(in["prior"]) {
+			vCatch(func() { parent.DeriveChild(uint32(pi) | slip10.Hardened) })
+			if curve != "ed25519" {
+				vCatch(func() { parent.DeriveChild(uint32(pi)) })
+			}
+		}
+		if curve == "toy" {
+			tc.calls, tc.pos = nil, 0
+		}
 		var e *slip10.ExtendedKey
 		var err error
 		p := vCatch(func() { e, err = parent.DeriveChild(index) })
 		out := extOut(e, err, p)
+		out["parent_unchanged"] = string(parent.ChainCode) == string(chain) && string(parent.Key.Bytes()) == string(parentKeyBytes)
 		out["calls"] = callsOut(tc)
 		var data0 []byte
 		if index >= slip10.Hardened {
@@ -396,7 +411,11 @@ func TestVerifDriver(t *testing.T) {
 				idx |= 1 << 31
 			}
 			pair := []int{int(idx >> 31), int(idx &^ (1 << 31))}
-			c := emit("slip10.child", M{"curve": curve, "parent_priv": key, "chain": chain, "pub": false, "index": pair})
+			prior := []int{}
+			if r.Intn(2) == 0 {
+				prior = []int{r.Intn(1 << 20), 7}[:1+r.Intn(2)]
+			}
+			c := emit("slip10.child", M{"curve": curve, "parent_priv": key, "chain": chain, "pub": false, "index": pair, "prior": prior})
 			if curve != "ed25519" { // also from the public parent (hardened must fail)
 				emit("slip10.child", M{"curve": curve, "parent_priv": key, "chain": chain, "pub": true, "index": pair})
 			}
